@@ -331,3 +331,58 @@ package vegeta
 //@     invariant forall k int :: 0 <= k && k < len(dec) && rot(k, old(seq), len(dec)) <= rangeindex ==> old(dpos(dec[k])) == dlen(dec[k])
 //@     invariant rangeindex >= 0 ==> err != nil
 //@     decreases len(dec) - rangeindex
+
+// ---------------------------------------------------------------------------------- C02 C03 C04
+// The goroutine that drives an attack: (*Attacker).Attack$1, with its deferred shutdown closure
+// Attack$1$1 inlined. The pacer is adversarial (type contract without postcondition); time is the
+// ghost clock (Since/Sleep only give lower bounds). Ghost automaton over scalar ghost variables.
+
+//@ func (*Attacker).Stop
+//@   trusted
+//@   requires a != nil
+
+//@ func (*Attacker).Attack$1
+//@   property C02 C03 C04
+//@   requires [captured-non-nil] a != nil && atk != nil && p != nil && wg != nil
+//@   requires [started-in-the-past] atk.began <= clock(0)
+//@   requires [initial-workers-clamped] workers <= a.maxWorkers
+//@   assume   [clock-range] clock(0) - atk.began <= 4611686018427387904 && atk.began >= 0
+//@   modifies workers
+//@   ghost released int
+//@   ghost paceOpen bool
+//@   ghost slept bool
+//@   ghost lastStop bool
+//@   ghost lastWait int
+//@   ghost lastElapsed int
+//@   ghost spawned int
+//@   ghost wgAdded bool
+//@   ghost phase int
+//@   ghost afterSpawn bool
+//@   at call time.Since: assume [attack-shorter-than-292-years] clock(0) - atk.began <= MaxInt64
+//@   before call p.Pace: assert [C04-hits-is-number-released] arg1 == released ;
+//@        assert [C04-elapsed-from-start] arg0 == clock(0) - atk.began ;
+//@        assert [C04-elapsed-non-decreasing] arg0 >= lastElapsed ;
+//@        assert [C04-not-consulted-after-duration] du > 0 ==> arg0 <= du ;
+//@        assert [C04-once-per-hit] !paceOpen && phase == 0
+//@   at call p.Pace: ghost paceOpen = true ; ghost lastElapsed = arg0 ; ghost lastWait = result0 ; ghost lastStop = result1 ; ghost slept = false
+//@   before call time.Sleep: assert [C04-sleeps-the-returned-wait] paceOpen && !lastStop && arg0 == lastWait ; ghost slept = true
+//@   at select-nonblocking: assert [C03-nonblocking-only-below-max] workers < a.maxWorkers && !afterSpawn
+//@   at select-blocking: ghost afterSpawn = false
+//@   at send ticks x2: assert [C04-released-only-after-wait-and-no-stop] paceOpen && slept && !lastStop ;
+//@        assert [C02-no-tick-after-close] phase == 0 ;
+//@        ghost released = released + 1 ; ghost paceOpen = false ; assume [fewer-than-2^62-hits] released < 4611686018427387904
+//@   at call Add: ghost wgAdded = true
+//@   at go attack: assert [C02-worker-registered-before-start] wgAdded ;
+//@        assert [C03-spawn-only-below-max] workers <= a.maxWorkers ;
+//@        ghost spawned = spawned + 1 ; ghost wgAdded = false ; ghost afterSpawn = true
+//@   at close ticks: assert [C02-ticks-closed-first] phase == 0 ; ghost phase = 1
+//@   at call Wait: assert [C02-wait-after-ticks-closed] phase == 1 ; ghost phase = 2
+//@   at close results: assert [C02-results-closed-after-workers-done] phase == 2 ; ghost phase = 3
+//@   at call Stop: assert [C02-stop-last] phase == 3 ; ghost phase = 4
+//@   ensures [C02-every-exit-shuts-down-in-order] phase == 4
+//@   ensures [C03-never-above-max] workers <= a.maxWorkers && workers == old(workers) + spawned
+//@   loop 1
+//@     invariant count == released && !paceOpen && phase == 0 && !wgAdded && !afterSpawn
+//@     invariant workers <= a.maxWorkers && workers == old(workers) + spawned
+//@     invariant lastElapsed <= clock(0) - atk.began && atk.began <= clock(0) && clock(0) >= old(clock(0))
+//@     invariant a == old(a) && atk == old(atk) && p == old(p) && du == old(du) && atk.began == old(atk.began)
